@@ -112,7 +112,7 @@ pub fn drive(a: &Args) -> i32 {
                 let ki = rng.gen_range(0..nkeys);
                 let key = keys[ki];
                 let seq0 = c.hub.seq();
-                let neigh0 = c.hub.neighbours(&origin.id);
+                let neigh0 = c.hub.connected(&origin.id);
                 let mut unreachable: Vec<String> = invented.clone();
                 for s in &c.silent {
                     if !neigh0.contains(s) {
